@@ -3,7 +3,7 @@ C16 / C14 / C02 / C01 / C09 / C15 rules."""
 import re
 from . import common, witness, irq, eff
 
-ALL_POLICIES = list(witness.POLICIES)
+ALL_POLICIES = [p for p in witness.POLICIES if p != "p_noerr"]     # p_noerr only takes part in the compiler / hash AST rules
 
 
 def shapes_for(tier):
